@@ -49,6 +49,8 @@ def gen_cases(tier: str, seed: int) -> list[dict]:
     for sp in range(4):
         for nth in range(2):
             cases.append({"kind": "pair", "spec": sp, "nth": nth, "seed": seed, "sample": 120 if tier == "quick" else 1500})
+    for i in range(16 if tier == "quick" else 120):
+        cases.append({"kind": "join_starts", "i": i, "seed": seed})
     for sp in range(len(RESTART_SPECS)):
         for order in (("fifo",) if tier == "quick" else ("fifo", "random", "lifo")):
             cases.append({"kind": "restart", "spec": sp, "order": order, "seed": seed})
@@ -302,7 +304,39 @@ def _pair(case: dict) -> dict:
     return {"violations": uniq, "obs": dict(obs), "keys": sorted(keys)}
 
 
+def _join_starts(case: dict) -> dict:
+    """Systematic: a stray StartStage for the early-firing join before EVERY step of the run (FIFO and one shuffled
+    order), over first-of / quorum joins whose upstreams succeed, fail terminally, fail-and-continue or poll."""
+    rng = random.Random(case["seed"] * 911 + case["i"])
+    spec = specs.first_of_failing(rng)
+    obs: Counter = Counter()
+    keys: set = set()
+    violations = []
+    ref = delivery_run(spec)
+    for k in range(ref.steps + 2):
+        for order in ("fifo", "random"):
+            run = delivery_run(spec, seed=rng.randrange(1 << 30), order=order, injections=[{"at": k, "do": "early_start", "ref": "j"}], max_steps=ref.steps * 5 + 100)
+            obs["evaluations"] += 1
+            obs["join_start_injections"] += 1
+            v, o, kk = start_oracle(spec, run)
+            v = oracles.attribute(v, run, "C03")
+            obs.update(o)
+            keys |= kk
+            for x in v:
+                x.update(stray_start_before_step=k, order=order)
+            violations += v
+    seen = set()
+    uniq = []
+    for x in violations:
+        if x["sig"] not in seen:
+            seen.add(x["sig"])
+            uniq.append(x)
+    return {"violations": uniq, "obs": dict(obs), "keys": sorted(keys)}
+
+
 def run_case(case: dict) -> dict:
+    if case.get("kind") == "join_starts":
+        return _join_starts(case)
     if case.get("kind") == "race":
         return _race(case)
     if case.get("kind") == "pair":
